@@ -32,18 +32,35 @@ func describeGateCond(c *chk.Ctx, cd ir.Cond) string {
 	if chk.LoadsField(v, c.M.SBuiltin) {
 		return neg + "builtin"
 	}
+	isName := func(x ssa.Value) bool {
+		_, isP := ir.NormCell(x).(*ssa.Parameter)
+		return isP
+	}
 	if call, ok := v.(*ssa.Call); ok && ir.IsCallTo(&call.Call, "strings.HasPrefix") {
-		if s, isS := constString(call.Call.Args[1]); isS {
-			if _, isP := call.Call.Args[0].(*ssa.Parameter); isP {
+		if s, isS := constString(call.Call.Args[1]); isS && isName(call.Call.Args[0]) {
+			return neg + "HasPrefix(name," + fmt.Sprintf("%q", s) + ")"
+		}
+	}
+	// strings.CutPrefix(name, P): its "found" result is HasPrefix(name, P)
+	if e, ok := v.(*ssa.Extract); ok && e.Index == 1 {
+		if call, ok := e.Tuple.(*ssa.Call); ok && ir.IsCallTo(&call.Call, "strings.CutPrefix") {
+			if s, isS := constString(call.Call.Args[1]); isS && isName(call.Call.Args[0]) {
 				return neg + "HasPrefix(name," + fmt.Sprintf("%q", s) + ")"
 			}
 		}
 	}
-	if bo, ok := v.(*ssa.BinOp); ok && bo.Op == token.EQL {
-		if s, isS := constString(bo.Y); isS {
-			if _, isP := bo.X.(*ssa.Parameter); isP {
-				return neg + "name==" + fmt.Sprintf("%q", s)
+	if x, y, op, ok := ir.Rel(ir.Cond{V: v, Truth: neg == ""}); ok && (op == token.EQL || op == token.NEQ) {
+		s, isS := constString(y)
+		nm := x
+		if !isS {
+			s, isS = constString(x)
+			nm = y
+		}
+		if isS && isName(nm) {
+			if op == token.EQL {
+				return "name==" + fmt.Sprintf("%q", s)
 			}
+			return "name!=" + fmt.Sprintf("%q", s)
 		}
 	}
 	return neg + "other(" + v.String() + ")"
@@ -71,14 +88,16 @@ func ruleReservedPrefix(c *chk.Ctx) {
 	okEdges := true
 	var seen []string
 	b := acall.Block()
-	preds := b.Preds
-	if len(preds) == 0 {
+	var altsIn [][]ir.Cond
+	for _, a := range ir.CondAltsAt(b) {
+		altsIn = append(altsIn, expandPredicateHelpers(c, a, 0)...)
+	}
+	if len(altsIn) == 0 {
 		okEdges = false
 	}
-	for _, p := range preds {
-		conds := ir.EdgeConds(p, b)
+	for _, conds := range altsIn {
 		var ks []string
-		for _, cd := range conds {
+		for _, cd := range dedupConds(conds) {
 			ks = append(ks, describeGateCond(c, cd))
 		}
 		sort.Strings(ks)
@@ -112,6 +131,9 @@ func ruleReservedPrefix(c *chk.Ctx) {
 		if ir.IsNilConst(v) {
 			continue
 		}
+		if call, isCall := v.(*ssa.Call); isCall && call == acall.(*ssa.Call) {
+			continue // the assigner's own answer
+		}
 		n++
 		okName := false
 		for _, part := range ks {
@@ -135,26 +157,65 @@ func ruleReservedPrefix(c *chk.Ctx) {
 			continue
 		}
 		g := call.Call.StaticCallee()
-		okAcc := false
+		// truth table of the accessor: true ⇐ options == nil, or ¬DisableBuiltin; false ⇐ DisableBuiltin
+		atom := func(cd ir.Cond) string {
+			if x, eq, ok := ir.NilCompare(cd.V); ok {
+				if _, isP := x.(*ssa.Parameter); isP {
+					if eq == cd.Truth {
+						return "nil"
+					}
+					return "nonnil"
+				}
+			}
+			v, t := cd.V, cd.Truth
+			if u, ok := v.(*ssa.UnOp); ok && u.Op == token.NOT {
+				v, t = u.X, !t
+			}
+			if ld, ok := v.(*ssa.UnOp); ok {
+				if fa, ok := ld.X.(*ssa.FieldAddr); ok && ir.FieldVar(fa).Name() == "DisableBuiltin" {
+					if t {
+						return "disabled"
+					}
+					return "enabled"
+				}
+			}
+			return "?"
+		}
+		okAcc := true
+		nTrue, nFalse := 0, 0
 		for _, r := range ir.Returns(g) {
 			v := ir.ReturnResult(r, 0)
-			if phi, ok := v.(*ssa.Phi); ok {
-				hasTrue, hasNot := false, false
-				for _, e := range phi.Edges {
-					if k, ok := e.(*ssa.Const); ok && k.Value != nil && k.Value.String() == "true" {
-						hasTrue = true
+			for _, want := range []bool{true, false} {
+				var alts [][]ir.Cond
+				if k, isK := v.(*ssa.Const); isK && k.Value != nil {
+					if (k.Value.String() == "true") == want {
+						alts = [][]ir.Cond{ir.CondsAt(r.Block())}
 					}
-					if u, ok := e.(*ssa.UnOp); ok && u.Op == token.NOT {
-						if ld, ok := u.X.(*ssa.UnOp); ok {
-							if fa, ok := ld.X.(*ssa.FieldAddr); ok && ir.FieldVar(fa).Name() == "DisableBuiltin" {
-								hasNot = true
-							}
+				} else {
+					for _, a := range ir.CondAlternatives(ir.Cond{V: v, Truth: want}, 0) {
+						alts = append(alts, append(append([]ir.Cond{}, ir.CondsAt(r.Block())...), a...))
+					}
+				}
+				for _, alt := range alts {
+					set := map[string]bool{}
+					for _, cd := range alt {
+						set[atom(cd)] = true
+					}
+					if want {
+						nTrue++
+						if !(set["nil"] || set["enabled"]) || set["disabled"] {
+							okAcc = false
+						}
+					} else {
+						nFalse++
+						if !set["disabled"] {
+							okAcc = false
 						}
 					}
 				}
-				okAcc = hasTrue && hasNot
 			}
 		}
+		okAcc = okAcc && nTrue >= 2 && nFalse >= 1
 		c.Check(okAcc, "TABLE.prefix", g, "builtin = ¬DisableBuiltin", g.Pos(), "the accessor returns true for nil options and ¬DisableBuiltin otherwise", "the builtin flag is not exactly ¬DisableBuiltin (nil options ⇒ enabled)")
 	}
 }
